@@ -198,18 +198,32 @@ CMP = {'=': lambda c: c == 0, '<>': lambda c: c != 0, '<': lambda c: c < 0,
 
 
 def binop(op, a, b):
-    if isinstance(a, Err):
-        return a
-    if isinstance(b, Err):
-        return b
     if isinstance(a, list) or isinstance(b, list):
         raise Undecided('array operand')
+    real_a, real_b = isinstance(a, Err), isinstance(b, Err)
+    if (real_a or real_b) and op not in CMP and op != '&':
+        # an error VALUE next to an operand that cannot be coerced: two
+        # failures at once, the statements only rank error values
+        other = b if real_a else a
+        if not isinstance(other, Err):
+            c = num_of(other)          # may itself be undecided
+            if isinstance(c, Err):
+                raise Undecided('error value next to a non-numeric operand')
+    if real_a:
+        return a
+    if real_b:
+        return b
     if op in CMP:
         return CMP[op](compare(a, b))
     if op == '&':
         ta, tb = text_of(a), text_of(b)
         return ta + tb
     x, y = num_of(a), num_of(b)
+    if isinstance(x, Err) and op == '/' and not isinstance(y, Err) \
+            and y == 0:
+        # a text that is not a number divided by zero: #VALUE! and #DIV/0!
+        # both apply, the statements do not rank them
+        raise Undecided('non-numeric text divided by zero')
     if isinstance(x, Err):
         return x
     if isinstance(y, Err):
